@@ -112,19 +112,27 @@ class LoopSpec:
             elif n in st.env and cur is not None and not (self.havoc and n in getattr(self.havoc, "handles", ())):
                 if self.havoc is None:
                     raise Unsupported(f"loop {self.name}: local {n} is modified and is not an integer; a havoc rule is needed")
+        alts = [st]
         if self.havoc is not None:
-            self.havoc(I, st)
+            r = self.havoc(I, st)
+            if isinstance(r, list):
+                alts = r  # the havoc rule forks (e.g. a local that is either a character or None)
         if is_for:
             k = st.env[stmt.target.id]
             st.pc.append(k >= rng[0])
             st.pc.append(k <= z3.If(rng[1] > rng[0], rng[1], rng[0]))
         # assume inv
         states = []
-        for t, s in self._eval_bool(I, self.inv, st):
-            for b, s2 in I.split(t, s):
-                if b:
-                    states.append(s2)
+        for st_alt in alts:
+            for t, s in self._eval_bool(I, self.inv, st_alt):
+                for b, s2 in I.split(t, s):
+                    if b:
+                        states.append(s2)
         for s in states:
+            # the variant is measured at the loop head, BEFORE the guard (guards with effects, e.g. `while self.accept(...)`)
+            var_head = None
+            if self.variant is not None:
+                var_head = self._call_spec(I, self.variant, s.fork())[0][1]
             # guard
             if is_for:
                 guard_res = [("val", s.env[stmt.target.id] < rng[1], s)]
@@ -142,10 +150,7 @@ class LoopSpec:
                     before = self._snapshot(I, s2)
                     fresh_from = next(I._oid)
                     allowed = self.modifies(I, s2) if self.modifies else set()
-                    var_before = None
-                    if self.variant is not None:
-                        vb = self._call_spec(I, self.variant, s2.fork())
-                        var_before = vb[0][1]
+                    var_before = var_head
                     kcur = s2.env[stmt.target.id] if is_for else None
                     for k3, v3, s3 in I.exec_block(stmt.body, s2):
                         if k3 in ("next", "continue"):
